@@ -151,6 +151,22 @@ pub fn run(rep: &mut Rep) {
                 rep.violation("recover:no-secret:swapped", json!({"secret": fr_s(&secret)}));
             }
         }
+        // a different message id right after the pair above (same secret and external nullifier, nothing hashed in
+        // between): the nullifier must change and the values must be those of the formulas
+        if limit > 1 {
+            rep.ev();
+            let id2 = if id + 1 < limit { id + 1 } else { id - 1 };
+            let w4 = mk_witness(secret, ext, id2, limit, &s2, &mut rng);
+            if let Ok((_, v4)) = cheap_message(&w4, &mut rng) {
+                if v4.nullifier == v1.nullifier {
+                    rep.violation("nullifier:equal-across-message-ids", json!({"secret": fr_s(&secret), "ids": [id, id2], "note": "consecutive calls"}));
+                }
+                let want4 = poseidon_ref(&[poseidon_ref(&[secret, ext, Fr::from(id2)])]);
+                if v4.nullifier != want4 {
+                    rep.violation("nullifier:not-H(H(s,e,m))", json!({"secret": fr_s(&secret), "ext": fr_s(&ext), "id": id2, "note": "call following one with the same secret and external nullifier"}));
+                }
+            }
+        }
         // different external nullifier / message id -> different nullifier
         if i % 2 == 0 {
             rep.ev();
